@@ -1,6 +1,6 @@
 import FlytModel.Generated.IR
 import FlytModel.Expected.IR
-/-! The translation of `BatchNode_Post` from the CURRENT source is, term for term, the IR the refinement theorems are about. -/
+/-! The translation of `BatchNode_Post` from the CURRENT source is, term for term, the expected IR. -/
 namespace Flyt.Tie
 theorem BatchNode_Post : Flyt.Generated.IR.BatchNode_Post = Flyt.Expected.IR.BatchNode_Post := rfl
 end Flyt.Tie
